@@ -101,6 +101,19 @@ def one(ctx, rng, P, use_strace):
                 elif k in ("both-changed-other-size", "only-B"):
                     B[p] = rdata(rng, 3000) + b"!!"
         ctx.stats.classes["tree:sibling-names-around-slash"] += 1
+    if rng.random() < 0.3 and (A or B):
+        # a file next to another one whose name is that name plus a suffix an implementation might use for scratch files
+        for base in rng.sample(sorted(set(A) | set(B)), min(3, len(set(A) | set(B)))):
+            p = base + rng.choice([".tmp", ".tmp", ".bak", ".new", ".part", "~", ".old"])
+            if any(u == p or u.startswith(p + "/") or p.startswith(u + "/") for u in used):
+                continue
+            used.add(p)
+            cls[p] = rng.choice(["both-same", "only-B", "both-same"])
+            d = rdata(rng, 2000)
+            B[p] = d
+            if cls[p] == "both-same":
+                A[p] = d
+        ctx.stats.classes["tree:scratch-suffix-siblings"] += 1
     base = ctx.path("pair")
     shutil.rmtree(base, ignore_errors=True)
     ra, rb, rw = (os.path.join(base, x) for x in ("A", "B", "W"))
@@ -116,7 +129,15 @@ def one(ctx, rng, P, use_strace):
     # the directory arguments are given with or without a trailing slash
     slash = rng.choice(["", "", "/"])
     arg_a, arg_b = ra + slash, rb + rng.choice(["", "/"]) if slash else rb
-    ctx.stats.classes["dir-arg:%s" % ("trailing-slash" if slash else "plain")] += 1
+    form = "trailing-slash" if slash else "plain"
+    if rng.random() < 0.25:
+        # the same directories spelled in a non-canonical way (a "." or ".." component, a doubled separator)
+        def respell(d):
+            parent, leaf = os.path.split(d)
+            return rng.choice([parent + "/./" + leaf, parent + "/" + leaf + "/../" + leaf, parent + "//" + leaf, os.path.join(parent, "..", os.path.basename(parent), leaf)])
+        arg_a, arg_b = respell(ra), (respell(rb) if rng.random() < 0.5 else rb)
+        form = "non-canonical"
+    ctx.stats.classes["dir-arg:%s" % form] += 1
     if use_strace and shutil.which("strace"):
         log = ctx.path("strace.log")
         p = subprocess.run(["strace", "-f", "-y", "-o", log, "-e", "trace=openat,open,creat,unlink,unlinkat,mkdir,mkdirat,rename,renameat,renameat2,ftruncate,truncate,rmdir",
